@@ -103,7 +103,8 @@ Theorem complete_sound cs arg po nm px i :
             comp_item arg po px c = Some i.
 Proof.
   unfold complete. intros H. apply go_sound in H. destruct H as [[]|(c & Hc & Hit & _)].
-  apply filter_In in Hc. destruct Hc as [Hc Hp]. unfold passes in Hp. apply andb_prop in Hp. destruct Hp as [Hd Hpo].
+  apply filter_In in Hc. destruct Hc as [Hc Hp]. unfold passes in Hp. apply andb_prop in Hp. destruct Hp as [Hp _].
+  apply andb_prop in Hp. destruct Hp as [Hd Hpo].
   exists c. split; [exact Hc|]. split; [apply Nat.eqb_eq; exact Hd|]. split; [|exact Hit].
   intros ->. cbn in Hpo. exact Hpo.
 Qed.
@@ -136,7 +137,7 @@ Qed.
 
 (* while the value of an argument is being typed, no flag, argument or command name is offered *)
 Theorem complete_value_mode cs arg po nm px i :
-  (exists c, In c cs /\ passes (max_depth cs) po c = true /\ only_value c = true) ->
+  (exists c, In c cs /\ passes (max_depth cs) po px c = true /\ only_value c = true) ->
   In i (fst (complete cs arg po nm px)) ->
   exists c, In c cs /\ only_value c = true /\ comp_item arg po px c = Some i.
 Proof.
@@ -148,12 +149,23 @@ Qed.
 
 (* otherwise every hint of the deepest level whose name extends what was typed is offered *)
 Theorem complete_names_complete cs arg po nm px c i :
-  (forall c', In c' cs -> passes (max_depth cs) po c' = true -> only_value c' = false) ->
-  In c cs -> passes (max_depth cs) po c = true -> comp_item arg po px c = Some i ->
+  (forall c', In c' cs -> passes (max_depth cs) po px c' = true -> only_value c' = false) ->
+  In c cs -> passes (max_depth cs) po px c = true -> comp_item arg po px c = Some i ->
   In i (fst (complete cs arg po nm px)).
 Proof.
   intros Hn Hc Hp Hit. unfold complete. eapply go_complete; [|apply filter_In; split; eauto|exact Hit].
-  destruct (existsb only_value (filter (passes (max_depth cs) po) cs)) eqn:E; [|reflexivity].
+  destruct (existsb only_value (filter (passes (max_depth cs) po px) cs)) eqn:E; [|reflexivity].
   apply existsb_exists in E. destruct E as (c' & Hc' & Ho). apply filter_In in Hc'. destruct Hc' as [H1 H2].
   rewrite (Hn c' H1 H2) in Ho. discriminate.
+Qed.
+
+(* while the value of `--name=val` / `-n=val` is being typed (a prefix is in force) every candidate
+   completes an argument's value: no name, no positional hint, no `--` (fix: commit b840250) *)
+Theorem complete_prefix_only_values cs arg po nm px i :
+  px <> PxNA -> In i (fst (complete cs arg po nm px)) ->
+  exists c, In c cs /\ only_value c = true /\ comp_item arg po px c = Some i.
+Proof.
+  intros Hpx H. unfold complete in H. apply go_sound in H. destruct H as [[]|(c & Hc & Hit & _)].
+  apply filter_In in Hc. destruct Hc as [Hc Hp]. unfold passes in Hp. apply andb_prop in Hp. destruct Hp as [_ Hv].
+  exists c. split; [exact Hc|]. split; [|exact Hit]. destruct px; [congruence|exact Hv|exact Hv].
 Qed.
